@@ -18,6 +18,8 @@ def run(ctx):
     if not ctx.build():
         return
     rng = ctx.rng
+    # a harness unit that reaches into an internal interface may not compile against the tree: the public-entry-point runs below cover the same code
+    ctx.fallback_e2e = lambda: [gen.gen_e2e(ctx.rng.fork('fb%d' % k), 950000 + k, maxit_max=25, r_max=2)[0] for k in range(ctx.budget(160, 2000))]
     n_eval = 0
     keys = set()
     # every correspondence component, sanitized (also compared with the model: a divergence is reported as tie failure)
